@@ -81,6 +81,13 @@ def _(vm, a, ci): return const_str(vm, 'i/o fault')
 @path('String::pop')
 def _(vm, a, ci):
     from .std_str import S, _bounded, _view
-    s = _bounded(vm, S(vm, a[0])); cs = s.chars()
+    cur = S(vm, a[0])
+    if isinstance(cur, SymStr) and not z3.is_string_value(z3.simplify(cur.term)):
+        t = cur.term
+        if not vm.branch(z3.Length(t) > 0): return NONE()
+        # opaque text: only the terminator case is modelled (the caller has just checked ends_with('\n'))
+        if not vm.branch(z3.SuffixOf(zs('\n'), t)): raise Unmodelled('String::pop on an opaque string that does not end in a line feed')
+        vm.ref_set(a[0], SymStr(z3.simplify(z3.SubString(t, 0, z3.Length(t) - 1)))); return some(10)
+    s = _bounded(vm, cur); cs = s.chars()
     if not cs: return NONE()
     vm.ref_set(a[0], _view(s, 0, len(cs) - 1)); return some(cs[-1])
